@@ -69,7 +69,9 @@ void ModelClient::do_login(const std::string &mode, int uid, const Addr *spoof)
 void ModelClient::do_ping(const Addr *spoof, int uid)
 {
 	cmc++;
-	send_b32('p', Bytes{(uint8_t)(uid >= 0 ? uid : userid), (uint8_t)(((in_seq & 7) << 4) | (in_frag & 15)), (uint8_t)(cmc >> 8), (uint8_t)cmc}, spoof);
+	Bytes body{(uint8_t)(uid >= 0 ? uid : userid), (uint8_t)(((in_seq & 7) << 4) | (in_frag & 15)), (uint8_t)(cmc >> 8), (uint8_t)cmc};
+	if (!spoof && uid < 0) { ping_parts.push_back("p" + dotify(codec_encode(5, body))); if (ping_parts.size() > 6) ping_parts.pop_front(); }
+	send_b32('p', body, spoof);
 }
 
 void ModelClient::do_simple(char cmd, const std::string &args, const Addr *spoof)
@@ -226,6 +228,13 @@ void ModelClient::on_rx(const Dgram &d)
 			char ip[32]; snprintf(ip, sizeof ip, "%u.%u.%u.%u", e, f, g, h); tun_ip = ip; tun_ip_h = (e << 24) | (f << 16) | (g << 8) | h;
 			w->probes["mc.login_ok"]++;
 			if (autopilot && !stopped) {
+				if (!replay_from.empty() && w->models) {
+					// the previous owner of this slot asked these very names; from the new owner they are new pings of the new session
+					ModelClient *prev = w->models->get(replay_from);
+					if (prev && prev != this && prev->userid == userid && prev->qtype == qtype) {
+						for (auto &part : prev->ping_parts) { send_name(part); w->probes["mc.replayed_predecessor_ping"]++; }
+					}
+				}
 				if (fragsize) do_setfrag(fragsize);
 				if (want_upenc && want_upenc != 5) { do_simple('s', std::string(1, b32chr(userid)) + std::string(1, b32chr(want_upenc))); upenc_pending = true; upenc_sent_at = w->S.now; }
 				if (want_downenc) do_simple('o', std::string(1, b32chr(userid)) + std::string(1, want_downenc));
@@ -291,6 +300,7 @@ ModelClient *Models::add(const std::string &name, const J &c)
 	std::string de = c.gets("downenc"); if (!de.empty()) mc->want_downenc = de[0];
 	mc->want_upenc = (int)c.geti("upenc", 0);
 	mc->chunk_cap = (int)c.geti("chunk_cap", 0);
+	mc->replay_from = c.gets("replay_from");
 	mc->next_id = (uint16_t)(1000 + clients.size() * 977);
 	if (c.has("auto_until_s")) mc->auto_until = (uint64_t)(c.getd("auto_until_s") * 1e6);
 	if (mc->autopilot) mc->start((uint64_t)c.geti("start_us", 200000));
